@@ -78,6 +78,7 @@ class Group:
         self.timeout = None
         self.no_loop_contracts = False
         self.object_bits = None
+        self.tier = 'quick'
 
 
 class Component:
@@ -153,6 +154,9 @@ def parse_spec(path):
         elif d == '@nocheck':
             comp.nochecks = getattr(comp, 'nochecks', []) + [parts[1]]
             i += 1
+        elif d == '@clone':
+            comp.clones = getattr(comp, 'clones', []) + [(parts[1], parts[2], len(parts) > 3 and parts[3] == 'keep_loops')]
+            i += 1
         elif d == '@symbolic':
             comp.symbolic.append(parts[1])
             i += 1
@@ -206,6 +210,8 @@ def parse_spec(path):
                     g.timeout = int(v)
                 elif k == 'object_bits':
                     g.object_bits = int(v)
+                elif k == 'tier':
+                    g.tier = v
                 elif k == 'loop_contracts':
                     g.no_loop_contracts = (v == 'off')
                 else:
@@ -252,10 +258,33 @@ def splice(ctext, comp):
             proto_end_seen = True
         if proto_end_seen and ln == '' and comp.prelude is not None and not getattr(comp, '_prelude_done', False):
             out.append('/* prelude from the spec file */')
+            for f, new, _kl in getattr(comp, 'clones', []):
+                m = re.search(r'/\*@FUNC %s\*/\n(.*)\n' % re.escape(f), ctext)
+                if m:
+                    out.append(m.group(1).replace(f + '(', new + '(', 1) + '; /* @clone */')
             out.extend(comp.prelude)
             out.append('')
             comp._prelude_done = True
     comp._prelude_done = False
+    # @clone F NEW: mechanical duplicate of the extracted function F under the name NEW (no contract), usable as a
+    # specification function in harnesses
+    text = '\n'.join(out)
+    for f, new, keep_loops in getattr(comp, 'clones', []):
+        m = re.search(r'/\*@FUNC %s\*/\n(.*?\n)/\*@CONTRACT \w+\*/\n\{\n(.*?)\n\}\n' % re.escape(f), ctext, re.S)
+        if not m:
+            return text, tagmap, ['@clone ' + f], []
+        sig = m.group(1).split('\n')[0].replace(f + '(', new + '(', 1)
+        blines = []
+        for l in m.group(2).split('\n'):
+            lm = re.match(r'^\s*/\*@LOOP (\w+) (\d+)\*/', l)
+            if lm:
+                if keep_loops:
+                    blines.extend(comp.loops.get((lm.group(1), int(lm.group(2))), []))
+                continue
+            blines.append(l)
+        body = '\n'.join(blines)
+        text += '\n/* @clone of %s (same extracted body, no contract) */\n%s\n{\n%s\n}\n' % (f, sig, body)
+    out = text.split('\n')
     missing = [f for f in comp.functions if f not in used_f]
     missing_l = [k for k in comp.loops if k not in used_l]
     return '\n'.join(out), tagmap, missing, missing_l
